@@ -6,6 +6,7 @@ CONSTANT BigReps = FALSE
 INIT Init
 NEXT Next
 INVARIANT Recorded
+INVARIANT FlagIrrelevant
 INVARIANT MonotoneKeys
 INVARIANT MonotoneInterval
 INVARIANT Thresholds
